@@ -597,3 +597,7 @@ impl<H: Host> Z80Bus for ZXController<H> {
     /// CPU calls it when halted
     fn halt(&mut self, _: bool) {}
 }
+
+#[cfg(kani)]
+#[path = "/verif/hooks/core/controller.rs"]
+mod verif_hooks;
